@@ -68,6 +68,21 @@ def ties(x, op):
             s = np.sort(e.sum(0))
             if s.size > 1 and s[-1] - s[-2] <= 1e-9 * (s[-1] + 1e-300):
                 return True
+        if op.name in ("dm", "dpm"):
+            # direction of a (near) zero resultant is decided by rounding (e.g. equal energies on
+            # opposite / evenly spread directions of integer-valued spectra)
+            t = np.radians(x.dir.values.astype("float64"))
+            if "dir" in x.dims:
+                t = np.radians(x.transpose(..., "freq", "dir").dir.values.astype("float64"))
+            rows = [e.sum(0)] if op.name == "dm" else []
+            if op.name == "dpm":
+                e1 = e.sum(-1)
+                ip, acc, amb = P.the_peak(e1, 1e-9 * (e1.max() + 1e-300))
+                rows = [e[k] for k in acc]
+            for r in rows:
+                tot = r.sum()
+                if tot > 0 and np.hypot((r * np.sin(t)).sum(), (r * np.cos(t)).sum()) <= 1e-6 * tot:
+                    return True
     return False
 
 
@@ -99,7 +114,7 @@ def one(ctx, rng, xr, ops, names):
         if op.watershed and T == "reverse":
             continue   # the statement exempts the watershed's tie-breaking from orientation
         key = "%s|T=%s|%s|nd=%d|lead=%d|%s" % (name, T, base_dt, len(th), len(lnames), cls)
-        if (op.exact or op.peak or name == "dp") and ties(x, op):
+        if (op.exact or op.peak or name in ("dp", "dm")) and ties(x, op):
             rec.skip(name, "discrete decision tied within rounding")
             continue
         try:
